@@ -1,6 +1,6 @@
 """C17 — moto_prettier upper-cases code and never touches string literals"""
 from framework import scale, CaseResult, text_points, points_text
-from props.textcommon import run_text_tool, model_inputs, out_lines, input_lines
+from props.textcommon import run_text_tool, model_inputs, out_lines, input_lines, repeat_a_source
 
 GEN_FILES = ["GenText"]
 RULE = ("lines over a weighted ASCII alphabet (letters of both cases, digits, blanks, punctuation, double quotes in runs of 1..6, "
@@ -99,6 +99,8 @@ def gen_cases(rng, tier):
         for j in range(k):
             st = rng.random() < 0.25
             inputs.append({"stdin": st, "text": gen_text(rng, not st)})
+        if rng.random() < 0.12:
+            repeat_a_source(rng, inputs)
         cases.append({"inputs": inputs})
         hist["random"] += 1
     # every quote pattern over a tiny alphabet
